@@ -826,9 +826,6 @@ Qed.
 
 Definition benign_suffix (a : bytes) : Prop :=
   has_dot_slash_b (percent_decode a) = false /\ hd_is c_slash (percent_decode a) = false.
-Definition benign_host (h : host_cfg) : Prop :=
-  benign_suffix (h_ext_default h) /\ benign_suffix (h_folder_default h).
-
 Lemma append_safe p a :
   unsafe_b (percent_decode p) = false -> ends_dot_or_slash p -> benign_suffix a ->
   unsafe_b (percent_decode (p ++ a)) = false.
@@ -845,97 +842,8 @@ Qed.
 Lemma ends_with_byte_true c p : ends_with_byte c p = true -> p <> [].
 Proof. destruct p; [discriminate|discriminate]. Qed.
 
-Lemma primed_safe h p :
-  benign_host h -> unsafe_b (percent_decode p) = false ->
-  unsafe_b (percent_decode (primed_path h p)) = false.
-Proof.
-  intros [Be Bf] U. unfold primed_path, uri_redirect.
-  destruct (h_redirect h); [|exact U].
-  destruct (ends_with_byte c_dot p) eqn:E1.
-  { apply append_safe; [exact U|left; exact E1|exact Be]. }
-  destruct (ends_with_byte c_slash p) eqn:E2; [|exact U].
-  apply append_safe; [exact U|right; exact E2|exact Bf].
-Qed.
-
 Lemma benign_defaults : benign_suffix (B "html") /\ benign_suffix (B "index.html").
 Proof. split; split; vm_compute; reflexivity. Qed.
-
-(** ------------------------------------------------------------------ *)
-(** * The pipeline *)
-
-Definition silent (ev : list event) : Prop := forallb (fun e => negb (is_prepare_or_read e)) ev = true.
-
-Lemma unsafe_is_400_and_silent_lemma h fs m ov cached p :
-  unsafe (percent_decode p) ->
-  let '(r, ev) := serve h fs m ov cached p in
-  r_status r = 400 /\ r_body r = None /\ r_from_cache r = false /\ silent ev.
-Proof.
-  intros U. apply unsafe_is_rejected_lemma in U. unfold serve. rewrite U.
-  destruct cached, m; cbn; repeat split; reflexivity.
-Qed.
-
-Lemma sanitize_ok_safe p u : sanitize_path p = Ok u -> unsafe_b (percent_decode p) = false.
-Proof. rewrite sanitize_path_spec. destruct (unsafe_b (percent_decode p)); [discriminate|reflexivity]. Qed.
-
-(** Whatever the configuration (benign default suffixes), the method, the Prime override and
-    the Prepare table: a file content in the reply comes from inside the public directory. *)
-Lemma served_file_inside_lemma h root cwd P m ov p r ev c :
-  benign_host h -> wf_pos root -> wf_pos cwd ->
-  resolve_path root cwd (h_path h ++ [c_slash] ++ h_public h) = Some P ->
-  serve h (read_path root cwd) m ov None p = (r, ev) ->
-  r_body r = Some c ->
-  exists names, names <> [] /\ Forall (fun s => proper_name s = true) names /\
-                descend (fst P) names = Some (File c).
-Proof.
-  intros Bh Wr Wc RP. unfold serve.
-  destruct (sanitize_path p) as [u| |] eqn:S.
-  2,3: (intros H; inversion H; subst; cbn [r_body]; discriminate).
-  apply sanitize_ok_safe in S. apply (primed_safe h p Bh) in S.
-  cbn zeta.
-  destruct (request_fs_path (h_path h) (h_public h) (primed_path h p)) as [path| |] eqn:F.
-  2,3: (intros H; inversion H; subst; cbn [r_body]; discriminate).
-  destruct (existsb _ (h_prepare_single h)).
-  { intros H; inversion H; subst; cbn [r_body]; discriminate. }
-  destruct path as [f|]; [|intros H; inversion H; subst; cbn [r_body]; discriminate].
-  assert (G : forall c', read_path root cwd f = Some c' -> c' = c ->
-              exists names, names <> [] /\ Forall (fun s => proper_name s = true) names /\
-                            descend (fst P) names = Some (File c)).
-  { intros c' R ->. exact (served_content_safe (primed_path h p) (h_path h) (h_public h) f root cwd P c S F Wr Wc RP R). }
-  destruct m.
-  3: (intros H; inversion H; subst; cbn [r_body]; discriminate).
-  all: destruct (read_path root cwd f) as [c'|] eqn:R;
-    intros H; inversion H; subst; cbn [r_body]; intros Hb; try discriminate;
-    inversion Hb; subst; eapply G; reflexivity.
-Qed.
-
-(** Without a Prime override, no Prepare key contains "./": the internal routes are
-    consulted only when a Prime extension produced them. *)
-Lemma prepare_key_lemma h fs m cached p r ev key :
-  benign_host h ->
-  serve h fs m None cached p = (r, ev) ->
-  In (EPrepareSingle key) ev \/ In (EPrepareRun key) ev ->
-  key = primed_path h p /\ ~ has_dot_slash key.
-Proof.
-  intros Bh. unfold serve.
-  destruct (sanitize_path p) as [u| |] eqn:S.
-  2,3: (destruct cached, m; intros H; inversion H; subst; cbn [app In];
-        intros [K|K]; repeat (destruct K as [K|K]; try discriminate); contradiction).
-  apply sanitize_ok_safe in S. apply (primed_safe h p Bh) in S.
-  assert (N : ~ has_dot_slash (primed_path h p)).
-  { rewrite <- has_dot_slash_iff. intros H. apply pd_keeps_dot_slash in H.
-    unfold unsafe_b in S. apply orb_false_iff in S as [S _]. congruence. }
-  cbn zeta.
-  assert (Fin : forall l, (In (EPrepareSingle key) l \/ In (EPrepareRun key) l) ->
-          (forall e, In e l -> e = EPrepareSingle (primed_path h p) \/ e = EPrepareRun (primed_path h p) \/
-                                 is_prepare_or_read e = false \/ e = EPrepareFn \/ exists f, e = EFsRead f) ->
-          key = primed_path h p /\ ~ has_dot_slash key).
-  { intros l [K|K] A; destruct (A _ K) as [E|[E|[E|[E|[f E]]]]]; try discriminate; inversion E; subst; auto. }
-  destruct (request_fs_path (h_path h) (h_public h) (primed_path h p)) as [path| |];
-  destruct cached as [cr|], m; try destruct (existsb _ (h_prepare_single h)); try destruct path as [f|];
-  try destruct (fs f);
-  intros H; inversion H; subst; intros K; apply (Fin _ K); cbn [app In]; intros ee Ie;
-  repeat (destruct Ie as [Ie|Ie]; [subst ee; auto 6; try (right; right; right; right; eexists; reflexivity)|]); contradiction.
-Qed.
 
 (** ------------------------------------------------------------------ *)
 (** * What was wrong before the repair (kept as a witness)
